@@ -96,7 +96,7 @@ def strategy(date, ctx):
             "debug": draw(st.booleans()),
             "cms": draw(st.sampled_from(["ignore", "warn"])),
             "as_dict": draw(st.booleans()),
-            "extra": draw(st.sets(st.sampled_from(["zz_a", "zz_b_m", "zz_c_hh", "zz_d_y_hh"]), max_size=3)),
+            "extra": draw(st.sets(st.sampled_from(["zz_a", "zz_b_m", "zz_c_hh", "zz_d_y_hh", "zz_e_m_hh", "zz_f_bg"]), max_size=3)),
             "rounding": draw(st.sampled_from([True, True, False])),
             "index": draw(st.sampled_from(["range", "range", "shuffled", "strings", "offset"])),
             "extra_derived": sorted(draw(st.sets(st.sampled_from(rule_units), max_size=2))) if rule_units else [],
@@ -125,7 +125,9 @@ def with_extra(df, extra, derived=(), index="range"):
     elif index == "offset":
         out.index = np.arange(n) + 5
     for i, c in enumerate(extra):
-        if c.endswith("_hh"):
+        if c.endswith("_bg"):
+            out[c] = np.arange(n, dtype="float64") % 3  # bg_id is not an input: no constancy requirement applies
+        elif c.endswith("_hh"):
             out[c] = out["hh_id"].astype("float64") * 1.5 + i
         else:
             out[c] = np.arange(n, dtype="float64") * 3.25 + i
@@ -136,17 +138,29 @@ def check(df, date, S, opts):
     nodes = env.all_nodes(date)
     fails = []
     base_targets = sorted(set(nodes) | set(S))
-    base = env.simulate(df, date, targets=base_targets, rounding=opts["rounding"])
+    base_error = None
+    try:
+        base = env.simulate(df, date, targets=base_targets, rounding=opts["rounding"])
+    except Exception as e:  # noqa: BLE001
+        base, base_error = None, e
     data = with_extra(df, opts["extra"], [c for c in opts.get("extra_derived", []) if c not in S], opts.get("index", "range"))
     arg = {c: data[c] for c in data.columns} if opts["as_dict"] else data
     try:
         res = env.simulate(arg, date, targets=list(S), rounding=opts["rounding"], debug=opts["debug"],
                            check_minimal_specification=opts["cms"])
     except Exception as e:  # noqa: BLE001
+        if base is None:
+            return []  # nothing is computable for this case: completeness is C08's subject
         # every t in S was computed by the baseline run, so the same request must not fail
         return [core.Failure(f"raises:{type(e).__name__}:{str(e)[:50]}",
                              f"{date}: targets={S} {opts} raises {type(e).__name__}: {e!s:.120} "
                              "although every target is computable in the all-node run")]
+    if base is None:
+        # the request for S succeeded but the request for (all nodes + S) failed: whether t can be
+        # computed depends on which other targets are requested
+        return [core.Failure(f"all-node-run-raises:{type(base_error).__name__}",
+                             f"{date}: targets={S} can be computed, but requesting them together with all other nodes raises "
+                             f"{type(base_error).__name__}: {base_error!s:.150}")]
     if len(res) != len(df):
         return [core.Failure("rows", f"{date}: result has {len(res)} rows for {len(df)} input rows")]
     expected_cols = set(S) | (set(data.columns) if opts["debug"] else set())
